@@ -226,6 +226,9 @@ def run(ctx):
     ctx.notes["max_length_enumerated"] = N
     rng = ctx.rng
     alpha = cols.SYMBOLS + (["c", "你", "̀"] if cols.agreed(["c", "你", "̀"]) == ["c", "你", "̀"] else [])
+    # zero-width characters that are not 'combining' in the Unicode sense (canonical combining
+    # class 0): a Thai vowel sign, a Devanagari one, ZERO WIDTH JOINER
+    alpha = alpha + cols.agreed(["\u0e31", "\u0941", "\u200d"])
     for _ in range(ctx.share(300 if ctx.quick else 20000)):
         spec = obs.rand_spec(rng, 5, 4, alpha, palette=obs.PALETTE)
         all_ops(ctx, spec)
